@@ -231,7 +231,7 @@ def path_condition(node, stop=None):
     conds = []
     child = node
     parent = getattr(node, '_parent', None)
-    while parent is not None and parent is not stop and not isinstance(parent, (ast.FunctionDef, ast.AsyncFunctionDef, ast.ClassDef, ast.Module)):
+    while parent is not None and not isinstance(parent, (ast.FunctionDef, ast.AsyncFunctionDef, ast.ClassDef, ast.Module)):
         local = []
         for field in ('body', 'orelse', 'finalbody', 'handlers'):
             blk = getattr(parent, field, None)
@@ -249,6 +249,8 @@ def path_condition(node, stop=None):
                     local.insert(0, (parent.iter, True, 'for'))
                 break
         conds = local + conds
+        if parent is stop:
+            return conds
         child = parent
         parent = getattr(parent, '_parent', None)
     if parent is not None and isinstance(parent, (ast.FunctionDef, ast.AsyncFunctionDef)) and child in parent.body:
